@@ -1,12 +1,15 @@
 """E2 "pysym": translate small numeric Python kernels from their CURRENT source (inspect.getsource + ast) into SMT terms.
 
 The function body is interpreted symbolically, path by path (an `if`/`while` on a symbolic condition forks the path; `for i in
-range(n)` is unrolled, a symbolic trip count is case-split up to the unwinding bound). Two numeric back ends:
+range(n)` is unrolled, a symbolic trip count is case-split up to the unwinding bound). Three numeric back ends:
 
 * `Z3Real`  - mathematical integers / reals as z3 terms (python floats are read as the exact rationals they denote; float
               rounding is outside any claim made with this back end),
 * `FP64`    - IEEE-754 binary64 with round-to-nearest-even as SMT-LIB text for the cvc5 binary (QF_BVFP); python ints are
-              signed 64-bit bit-vectors, `int(float)` is round-toward-zero, `round(float)` is round-half-even.
+              signed 64-bit bit-vectors, `int(float)` is round-toward-zero, `round(float)` is round-half-even,
+* `FPReal`  - a sound over-approximation of binary64 arithmetic in z3 Int/Real (each operation returns the nearest point of the
+              grid of the result's binade, ties left open): only its `unsat` answers are proofs; its models are candidate
+              inputs that count only after they reproduced on the real function.
 
 Everything the translator does not know makes it raise `Unsupported` (the obligation then reports `inconclusive` with the
 reason) - nothing is skipped silently. Environment calls are given as a stub table {unparsed callee text: fn(sym, st, args, kwargs)}.
